@@ -102,7 +102,7 @@ def coq_case(c, r):
 def run(chk):
     chk.trust("hand model theories/Model_Geom2D.v tied to the code by this correspondence (not by translation)",
               "harness/impl/geom2d.py calls the real find_intersections / wallIntersection / polygons.* / closest_approach")
-    chk.assume("completeness proved for one slope-class branch only; the other three rest on the correspondence",
+    chk.assume("completeness is proved for edges `separated` from the segment (non-zero lengths, same-class slopes differing by >= 1e-15): near-parallel same-class pairs are outside the theorem, as in the code",
                "cases whose exact outcome depends on the tolerance (touching/vertex) are classified degenerate and only counted")
     chk.coq()
     rng = random.Random(chk.seed)
